@@ -50,5 +50,12 @@ package cred
 // A (re)load either fails or leaves the server with initialised maps (so that later additions cannot hit a
 // nil map).
 //@ func (*ManagedServer).LoadFromFile
-//@   requires !isnil(s)
+//@   requires !isnil(s) && isnil(s.cachedCredMap) == isnil(s.cachedUserLookupMap)
+//@   modifies s.cachedContent, s.cachedCredMap, s.cachedUserLookupMap, s.tcp.ulm, s.udp.ulm
+//@   ensures isnil(s.cachedCredMap) == isnil(s.cachedUserLookupMap)
 //@   ensures isnil(result) ==> !isnil(s.cachedCredMap) && !isnil(s.cachedUserLookupMap)
+
+// A registered server has been loaded successfully: its maps exist.
+//@ func (*Manager).RegisterServer
+//@   requires !isnil(m) && !isnil(m.servers)
+//@   ensures isnil(result1) ==> !isnil(result0) && !isnil(result0.cachedCredMap) && !isnil(result0.cachedUserLookupMap)
